@@ -64,12 +64,21 @@ Proof. exact (C18_content_length_safe_thm map_ userbin heap verify). Qed.
 Theorem C18_no_download_no_write : forall f fs evs s' outs,
   Forall ev_ok evs -> run (init f fs) evs = (s', outs) -> downloading s' = false -> forall x, In x outs -> ~ isflash x.
 Proof. exact (C18_no_download_no_write_thm map_ userbin heap verify). Qed.
+(* Whatever the segmentation: the header that is parsed and the bytes that are taken (and flashed and verified, see
+   C18_finish_implies_authentic) depend only on the byte stream the segments form — the image is the first
+   `announced` bytes that follow the header in that stream. *)
+Theorem C18_image_is_stream_prefix : forall f fs segs s' outs,
+  Forall bytes_ok segs -> run (init f fs) (Start :: map Seg segs) = (s', outs) ->
+  downloading s' = true -> (halted s' = false \/ downloaded s' = expected s') ->
+  exists body, stream_of segs = rev (rhdr s') ++ body /\ accepted s' = take (expected s') body.
+Proof. exact (C18_image_is_stream_prefix_thm map_ userbin heap verify). Qed.
 End C18.
 Print Assumptions C18_writes_contained.
 Print Assumptions C18_finish_implies_authentic.
 Print Assumptions C18_otherwise_idle_and_restart.
 Print Assumptions C18_content_length_safe.
 Print Assumptions C18_no_download_no_write.
+Print Assumptions C18_image_is_stream_prefix.
 
 (* what the ends of a decided run look like *)
 Theorem C18_halting_tails : forall t, halting_tail t ->
